@@ -120,6 +120,8 @@ def x_quorum_ral():
     out += "Definition ral_quorum_accepts (q k : Z) : bool := %s.\n" % acc
     return out, {"expr": m.group(1).strip(), "assert": m2.group(1)}
 
+TARGETS = {}   # extractor name -> (file stem, header or None); default: Extracted
+
 EXTRACTORS = [
     ("quorum_go", x_quorum_go),
     ("quorum_sol", x_quorum_sol),
@@ -142,6 +144,10 @@ def load_more():
             if n not in seen:
                 seen.add(n)
                 EXTRACTORS.append((n, fn))
+                # a module may send its definitions to a file of its own (coq/gen/<TARGET>.v, logical name WH.gen.<TARGET>)
+                # with its own import header, so that work in progress on one extractor cannot break the others' builds
+                if getattr(mod, "TARGET", None):
+                    TARGETS[n] = (mod.TARGET, getattr(mod, "HEADER", None))
 
 def main():
     load_more()
@@ -165,15 +171,23 @@ def main():
             if status[name]["ok"]:
                 fb[name] = ch.split("\n", 1)[1]
         json.dump(fb, open(fallback_path, "w"), indent=1, sort_keys=True)
-    hdr = ("(* GENERATED by /verif/gen/extract.py from /repo's working tree on every run. Do not edit. *)\n"
+    gen_note = "(* GENERATED by /verif/gen/extract.py from /repo's working tree on every run. Do not edit. *)\n"
+    hdr = (gen_note +
            "From Coq Require Import List ZArith Arith Bool Strings.Byte.\nFrom WH Require Import lib.Layout.\nImport ListNotations.\nOpen Scope Z_scope.\n\n")
-    out = hdr + "\n".join(chunks)
     coqdir = os.environ.get("VERIF_COQ") or os.path.join(VERIF, "coq")
-    path = os.path.join(coqdir, "gen", "Extracted.v")
-    os.makedirs(os.path.dirname(path), exist_ok=True)
-    old = open(path).read() if os.path.exists(path) else None
-    if old != out:
-        open(path, "w").write(out)
+    files = {"Extracted": [hdr]}
+    for (name, _), ch in zip(EXTRACTORS, chunks):
+        stem, h = TARGETS.get(name, ("Extracted", None))
+        if stem not in files:
+            files[stem] = [gen_note + (h or hdr[len(gen_note):]) + "\n"]
+        files[stem].append(ch)
+    os.makedirs(os.path.join(coqdir, "gen"), exist_ok=True)
+    for stem, parts in files.items():
+        out = parts[0] + "\n".join(parts[1:])
+        path = os.path.join(coqdir, "gen", stem + ".v")
+        old = open(path).read() if os.path.exists(path) else None
+        if old != out:
+            open(path, "w").write(out)
     os.makedirs(os.path.join(VERIF, "build"), exist_ok=True)
     json.dump(status, open(os.path.join(os.path.dirname(coqdir) if os.environ.get("VERIF_COQ") else os.path.join(VERIF, "build"), "extract_status.json"), "w"), indent=1)
     return status
